@@ -14,7 +14,9 @@ class C15(Prop):
         "real rnacos processes on loopback (3 nodes): 6-14 HTTP registrations / deregistrations of persistent and ephemeral "
         "instances of two services addressed to arbitrary nodes, a settling time of 4 s (sync interval 500 ms + margin), then "
         "GET /nacos/v1/ns/instance/list on every node; one directed scenario in both tiers replaces an instance by another of "
-        "the same service back to back through each node (a sync batch with a removal and an update); in half of the thorough scenarios a node is killed, a registration is "
+        "the same service back to back through each node (a sync batch with a removal and an update), another has "
+        "heart-beating HTTP clients of which one deregisters right after a beat and compares 18 s later (after the owner's "
+        "15 s heartbeat flush); in half of the thorough scenarios a node is killed, a registration is "
         "made meanwhile, the node is restarted and the lists are compared again. Oracle: every live node returns the same "
         "instances (address, health, enabled, weight) and they are the registered ones. non-trivial = contains a comparison"))]
     trusted_base = [
